@@ -151,6 +151,24 @@ def rho_of(classes, coords):
     return LIB.sqrt(x * x + y * y)
 
 
+def abstract_value(a, name):
+    """name a compound value: a fresh variable v with the defining hypothesis v*den == num.  Used for the Cartesian view
+    of eta/theta-stored operands in the boost contracts, so that the kernels are applied to plain variables"""
+    ctx = S.CTX
+    key = ("abstract",) + a.key()
+    if key in ctx.memo:
+        return ctx.memo[key]
+    sg = a.sign()
+    v = ctx.new(f"{name}{len(ctx.names)}", sg, lambda env, a=a: a.num(env))
+    ctx.hyp(f_rel(Poly.var(v) * a.d - a.n, "=="))
+    if sg in ("+", "-", "0+", "0-"):
+        ctx.hyp(f_rel(Poly.var(v), {"+": ">", "-": "<", "0+": ">=", "0-": "<="}[sg]))
+    r = A.var(v)
+    ctx.memo[key] = r
+    ctx.notes.append("view abstraction")
+    return r
+
+
 def vkey(v):
     if isinstance(v, A):
         return ("A",) + v.key()
@@ -167,6 +185,8 @@ def view(classes, coords):
     `view(result) == cart`; it is used directly instead of being re-derived from the encoded coordinates."""
     az = classes[0]
     cache = getattr(S.CTX, "viewcache", None)
+    if cache is None and getattr(S.CTX, "abstract_views", False):
+        cache = S.CTX.__dict__.setdefault("viewcache", {})
     k2 = None
     if cache is not None and az is AzimuthalRhoPhi:
         k2 = ("az", vkey(coords[0]), vkey(coords[1]))
@@ -199,6 +219,10 @@ def view(classes, coords):
                 if not isinstance(eta, Lg):
                     raise S.OutOfSubset("eta coordinate is not a logarithm")
                 Z = rho * LIB.sinh(eta)
+            if getattr(S.CTX, "abstract_views", False) and (not Z.d.is_one() or Z.n.nterms() > 1):
+                Z = abstract_value(Z, "Zv")
+                if k3 is not None:
+                    cache[k3] = Z
         out.append(Z)
     if len(classes) >= 3:
         if classes[2] is TemporalT:
@@ -206,7 +230,11 @@ def view(classes, coords):
         else:
             tau = A.of(coords[3])
             X, Y, Z = out
-            T = LIB.sqrt(LIB.maximum(LIB.copysign(tau * tau, tau) + (X * X + Y * Y + Z * Z), 0))
+            k4 = ("te", vkey(X), vkey(Y), vkey(Z), vkey(tau))
+            if cache is not None and k4 in cache:
+                T = cache[k4]          # postcondition of a kernel contract (modular.kernel stubs)
+            else:
+                T = LIB.sqrt(LIB.maximum(LIB.copysign(tau * tau, tau) + (X * X + Y * Y + Z * Z), 0))
         out.append(T)
     return out
 
